@@ -29,7 +29,7 @@ class CliCheck(object):
         self.stats = {'jobs': 0, 'worlds': 0, 'runs': 0, 'events': 0, 'visits': 0, 'fault_plans': 0, 'restarts': 0,
                       'real_crash_crosschecks': 0, 'real_crash_mismatch': 0, 'subprocess_crosschecks': 0, 'subprocess_mismatch': 0,
                       'faults_not_fired': 0, 'fault_space_enumerated': 0, 'fault_space_capped': 0, 'model_api_calls': 0,
-                      'worlds_with_visits': 0, 'cross_property_violations': 0, 'second_generation_faults': 0, 'worlds_too_heavy': 0, 'clock_reads': 0}
+                      'worlds_with_visits': 0, 'cross_property_violations': 0, 'second_generation_faults': 0, 'worlds_too_heavy': 0, 'clock_reads': 0, 'sim_crash_unfaithful': 0, 'real_crash_only_plans': 0}
         self.faults_fired = {}
         self.probes = {}
         self.flag_disc = {}
@@ -89,7 +89,7 @@ class CliCheck(object):
         st['worlds'] += 1
         s = r['stats']
         for k in ('runs', 'events', 'visits', 'fault_plans', 'restarts', 'real_crash_crosschecks', 'real_crash_mismatch',
-                  'subprocess_crosschecks', 'subprocess_mismatch', 'faults_not_fired', 'fault_space_enumerated', 'fault_space_capped', 'second_generation_faults', 'worlds_too_heavy', 'clock_reads'):
+                  'subprocess_crosschecks', 'subprocess_mismatch', 'faults_not_fired', 'fault_space_enumerated', 'fault_space_capped', 'second_generation_faults', 'worlds_too_heavy', 'clock_reads', 'sim_crash_unfaithful', 'real_crash_only_plans'):
             st[k] += s.get(k, 0)
         st['model_api_calls'] += r.get('model_api_calls', 0)
         if s.get('twin_visits'):
@@ -255,6 +255,7 @@ class CliCheck(object):
             'worlds_skipped_event_cap': st['worlds_too_heavy'],
             'restarts_after_fault': st['restarts'], 'restarts_under_a_second_fault': st['second_generation_faults'],
             'real_crash_crosschecks': st['real_crash_crosschecks'], 'real_crash_mismatch': st['real_crash_mismatch'],
+            'worlds_where_simulated_crash_was_unfaithful': st['sim_crash_unfaithful'], 'crash_plans_run_as_real_process_death_only': st['real_crash_only_plans'],
             'subprocess_crosschecks': st['subprocess_crosschecks'], 'subprocess_mismatch': st['subprocess_mismatch'],
             'probes': dict(sorted(self.probes.items())),
             'violations_of_other_properties_seen': dict(sorted(self.cross.items())),
